@@ -603,7 +603,8 @@ func TestProp(t *testing.T) {
 			"outside far. Cases where the multi-line is not simple (own O(n^2) test, margin 1e-7*scale) or a line vertex / polygon vertex is within that margin of the other " +
 			"geometry are skipped and counted. Oracle: every line segment is cut at its intersections with every polygon edge and the pieces whose midpoint is inside P " +
 			"(own even-odd test) are summed -> expected length; Clip's total Length must match (1e-9 relative to length+scale), every result vertex must be within 1e-9*scale of " +
-			"the input line and inside or on P, and the result is empty exactly when the expected length is 0. Non-trivial = the line crosses the boundary of P at least twice. Distinct by case hash.",
+			"the input line and inside or on P, and the result is empty exactly when the expected length is 0. Non-trivial = the line crosses the boundary of P at least twice. Distinct by case hash." +
+			" Round 9: block-exit lines with long tails (K or 2K more vertices outside after the exit at vertex K).",
 		Assumptions: []string{"general position enforced by filter", "oracle in vkit (SegIntersection, PIP) trusted"},
 		Gen:         gen,
 		Run:         run,
